@@ -68,12 +68,32 @@ class ConvertProteinPosition:
     returns = ListOf(Int, 2, 2, as_tuple=True)
 
 
-FEAT = Rec("Feature", label="FeatureWithLocation", location=GENE, type=Const("CDS"))
+@spec
+def encoded(loc, t0, t1, x):
+    """genome base x encodes one of the transcript bases t0 <= t < t1 (per exon: the image of the
+    clipped transcript interval is an interval again, so no quantifier over t is needed)"""
+    rev = loc.parts[0].strand == -1
+    found = False
+    for k in range(len(loc.parts)):
+        p = loc.parts[k]
+        lo = cum(loc, k)
+        a = max(t0, lo) - lo
+        b = min(t1, lo + (p.end - p.start)) - lo
+        if a < b:
+            if rev:
+                found = found or (p.end - b <= x and x < p.end - a)
+            else:
+                found = found or (p.start + a <= x and x < p.start + b)
+    return found
+
+
+FEAT = Rec("Feature", label="FeatureWithLocation", location=OneOf(FL, CL(2, 3)), type=Const("CDS"))
 
 
 @contract(f"{FEATURE}::Feature.get_sub_location_from_protein_coordinates", props=["C09"])
 class GetSubLocation:
     params = {"self": FEAT, "start": Int, "end": Int}
+    budget_s = 400
 
     def requires(self, start, end):
         return gene_ok(self.location) and transcript_order(self.location)
@@ -86,7 +106,7 @@ class GetSubLocation:
     ensures = {
         "covers-exactly-the-encoding-bases": lambda self, start, end, result:
             forall(range(0, max(p.end for p in self.location.parts) + 1),
-                   lambda x: covers(result, x) == exists(range(3 * start, 3 * end), lambda t: nt(self.location, t) == x)),
+                   lambda x: covers(result, x) == encoded(self.location, 3 * start, 3 * end, x)),
         "three-bases-per-residue-in-transcript-order": lambda self, start, end, result:
             total_len(result) == 3 * (end - start) and wf(result) and disjoint(result)
             and all(p.strand == self.location.parts[0].strand for p in result.parts)
